@@ -65,11 +65,13 @@ def inline_helpers(stmts, mod, skip=()):
     argument expressions, locals are renamed; `X = E; return X` collapses to `targets = E`."""
     defs = {n.name: n for n in mod.body if isinstance(n, ast.FunctionDef)}
     out = []
+    used = {n.id for st in stmts for n in ast.walk(st) if isinstance(n, ast.Name)}
     for st in stmts:
         v = st.value if isinstance(st, ast.Assign) else None
         if not (isinstance(v, ast.Call) and isinstance(v.func, ast.Name) and v.func.id in defs and v.func.id not in skip
                 and not v.keywords):
-            out.append(st)
+            emb = _inline_embedded(st, defs, skip, used)
+            out += emb if emb is not None else [st]
             continue
         h = defs[v.func.id]
         body = [b for b in h.body if not _is_doc(b)]
@@ -92,6 +94,43 @@ def inline_helpers(stmts, mod, skip=()):
             new = ren[:-1] + [ast.Assign(targets=st.targets, value=ren[-1].value, lineno=st.lineno)]
         out += [ast.fix_missing_locations(ast.parse(ast.unparse(x)).body[0]) for x in new]
     return out
+
+
+def _inline_embedded(st, defs, skip, used):
+    """`x = f(helper(a))` / `x /= helper(a)`: the helper's assignments (parameters replaced by the arguments; locals keep their
+    names unless the caller uses them) followed by the statement with the call replaced by the returned expression.  Only for
+    same-module helpers whose body is straight-line assignments + one return, called once, positionally."""
+    if not isinstance(st, (ast.Assign, ast.AugAssign)):
+        return None
+    calls = [n for n in ast.walk(st.value) if isinstance(n, ast.Call) and isinstance(n.func, ast.Name) and n.func.id in defs
+             and n.func.id not in skip]
+    if len(calls) != 1 or calls[0].keywords:
+        return None
+    call = calls[0]
+    h = defs[call.func.id]
+    body = [b for b in h.body if not _is_doc(b)]
+    params = [a.arg for a in h.args.args]
+    if len(params) != len(call.args) or h.args.vararg or h.args.kwarg or h.args.kwonlyargs or h.args.defaults or not body \
+            or not isinstance(body[-1], ast.Return) or body[-1].value is None \
+            or not all(isinstance(b, ast.Assign) and len(b.targets) == 1 for b in body[:-1]):
+        return None
+    mapping = {p_: '(' + ast.unparse(a) + ')' for p_, a in zip(params, call.args)}
+    for b in body[:-1]:
+        for n in ast.walk(b.targets[0]):
+            if isinstance(n, ast.Name) and n.id not in mapping:
+                if n.id in params:
+                    return None                      # the helper re-binds a parameter: leave it alone
+                if n.id in used:
+                    mapping[n.id] = f'{h.name}_{n.id}'.lstrip('_')
+    ren = [ast.fix_missing_locations(_Subst(mapping).visit(ast.parse(ast.unparse(b)).body[0])) for b in body]
+    marker = '__INLINED_RETURN__'
+    call_src = ast.unparse(call)
+    src = ast.unparse(st)
+    if src.count(call_src) != 1:
+        return None
+    new_src = src.replace(call_src, '(' + ast.unparse(ren[-1].value) + ')')
+    pre = [ast.fix_missing_locations(ast.parse(ast.unparse(x)).body[0]) for x in ren[:-1]]
+    return pre + [ast.fix_missing_locations(ast.parse(new_src).body[0])]
 
 
 def _is_doc(s):
@@ -188,17 +227,30 @@ def generate(repo):
         fn = get_def(cv, 'apply_transfer_functions')
         body = [s for s in fn.body if not _is_doc(s)]
         env = {'obj': 'obj'}
-        out = {'pre': None, 'step': None, 'post': None, 'gridblock': None, 'callbranch': None}
+        out = {'pre': None, 'step': None, 'post': None, 'gridblock': None, 'callbranch': None, 'tables': {}}
         k = 0
+
+        def tables(k):
+            """literal (keyword, grid) tables `T = (('fx', fx), ...)` / `T = {'fx': fx, ...}` hoisted out of the loop.  They are
+            only accepted AFTER the block that builds the grids (a table made before it would capture the callers' None's)"""
+            while k < len(body) and isinstance(body[k], ast.Assign) and len(body[k].targets) == 1 and isinstance(body[k].targets[0], ast.Name):
+                t = _pair_table(body[k].value)
+                if t is None or body[k].targets[0].id in ('o', 'O', 'obj', 'tfs', 'shift', 'dx') + GRIDS:
+                    break
+                out['tables'][body[k].targets[0].id] = t
+                k += 1
+            return k
         # [1] optional block that builds the grids for callables
         if k < len(body) and isinstance(body[k], ast.If) and ast.unparse(body[k].test) == 'any((callable(tf) for tf in tfs))' \
                 and not body[k].orelse:
             out['gridblock'] = body[k].body
             k += 1
+        k = tables(k)
         # [2] aliases of the object
         while k < len(body) and isinstance(body[k], ast.Assign) and ast.unparse(body[k].targets[0]) == 'o':
             env['o'] = arr_expr(body[k].value, env)
             k += 1
+        k = tables(k)
         # [3] spectrum in the chosen convention
         s = body[k] if k < len(body) else None
         if not (isinstance(s, ast.If) and ast.unparse(s.test) == 'shift' and len(s.body) == 1 and len(s.orelse) == 1
@@ -206,6 +258,7 @@ def generate(repo):
             raise Untranslatable(f'expected `if shift: O = ... else: O = ...`, found {ast.unparse(s)[:60] if s else "nothing"}')
         out['pre'] = (arr_expr(s.body[0].value, env), arr_expr(s.orelse[0].value, env))
         k += 1
+        k = tables(k)
         # [4] the loop over the transfer functions
         loop = body[k] if k < len(body) else None
         if not (isinstance(loop, ast.For) and ast.unparse(loop.target) == 'tf' and ast.unparse(loop.iter) == 'tfs' and not loop.orelse):
@@ -232,10 +285,24 @@ def generate(repo):
         out['post'] = (arr_expr(post[0].body[0].value, {'O': 'O'}), p0)
         return out
 
-    def call_branch_pairs(stmts):
+    def _pair_table(v):
+        """{keyword: grid variable} of a literal table of pairs / dict literal, else None"""
+        if isinstance(v, ast.Dict) and v.keys and all(isinstance(kk, ast.Constant) and isinstance(kk.value, str) and isinstance(vv, ast.Name)
+                                                      for kk, vv in zip(v.keys, v.values)):
+            return {kk.value: vv.id for kk, vv in zip(v.keys, v.values)}
+        if isinstance(v, (ast.Tuple, ast.List)) and v.elts and all(
+                isinstance(e, (ast.Tuple, ast.List)) and len(e.elts) == 2 and isinstance(e.elts[0], ast.Constant)
+                and isinstance(e.elts[0].value, str) and isinstance(e.elts[1], ast.Name) for e in v.elts):
+            keys = [e.elts[0].value for e in v.elts]
+            if len(set(keys)) != len(keys):
+                return None
+            return {e.elts[0].value: e.elts[1].id for e in v.elts}
+        return None
+
+    def call_branch_pairs(stmts, hoisted=None):
         """the `if callable(tf):` branch.  Every statement must be one of the known ones; `tf = tf(**kwargs)` is required
         verbatim (the value a callable returns is used as is).  -> [(keyword, grid variable)]"""
-        pairs, dicts = {}, {}
+        pairs, dicts = {}, dict(hoisted or {})
         seen_call = False
         for st in stmts:
             src = ast.unparse(st)
@@ -250,9 +317,9 @@ def generate(repo):
                     raise Untranslatable(f'keyword wiring {ast.unparse(b)[:50]}')
                 pairs[key] = b.value.id
                 continue
-            if isinstance(st, ast.Assign) and isinstance(st.value, ast.Dict) and isinstance(st.targets[0], ast.Name) \
-                    and all(isinstance(kk, ast.Constant) and isinstance(vv, ast.Name) for kk, vv in zip(st.value.keys, st.value.values)):
-                dicts[st.targets[0].id] = {kk.value: vv.id for kk, vv in zip(st.value.keys, st.value.values)}
+            if isinstance(st, ast.Assign) and isinstance(st.targets[0], ast.Name) and st.targets[0].id not in ('kwargs', 'params', 'sig', 'tf') \
+                    and _pair_table(st.value) is not None:
+                dicts[st.targets[0].id] = _pair_table(st.value)
                 continue
             if isinstance(st, ast.Assign) and ast.unparse(st.targets[0]) == 'kwargs' and isinstance(st.value, ast.DictComp):
                 dc = st.value
@@ -264,7 +331,8 @@ def generate(repo):
                 if not ok:
                     # {name: grid for name, grid in D.items() if name in params}
                     it = ast.unparse(gen.iter)
-                    d = it[:-len('.items()')] if it.endswith('.items()') else None
+                    # D.items() of a dict table, or a table of pairs iterated directly
+                    d = it[:-len('.items()')] if it.endswith('.items()') else (it if it in dicts else None)
                     ok = len(dc.generators) == 1 and d in dicts and isinstance(gen.target, ast.Tuple) and len(gen.target.elts) == 2 \
                         and all(isinstance(t, ast.Name) for t in gen.target.elts) and ast.unparse(dc.key) == gen.target.elts[0].id \
                         and ast.unparse(dc.value) == gen.target.elts[1].id \
@@ -289,7 +357,7 @@ def generate(repo):
         sc = atf_scan()
         if sc['callbranch'] is None:
             raise Untranslatable('no `if callable(tf):` branch')
-        call_branch_pairs(sc['callbranch'])       # every statement of the branch is a known one
+        call_branch_pairs(sc['callbranch'], sc['tables'])       # every statement of the branch is a known one
         pre, step, post = sc['pre'], sc['step'], sc['post']
         return (f'def tfPre {HDR} (shift : Bool) (obj : A) : A :=\n  if shift then {pre[0]} else {pre[1]}\n\n'
                 f'def tfStep {HDR} (O tf : A) : A := {step}\n\n'
@@ -442,7 +510,7 @@ def generate(repo):
         sc = atf_scan()
         if sc['callbranch'] is None:
             raise Untranslatable('no `if callable(tf):` branch')
-        pairs = call_branch_pairs(sc['callbranch'])
+        pairs = call_branch_pairs(sc['callbranch'], sc['tables'])
         body = ', '.join(f'("{a}", "{b}")' for a, b in pairs)
         return f'def tfKwargs : List (String × String) := [{body}]'
     g.item('apply_transfer_functions.kwargs', 'prysm/convolution.py:apply_transfer_functions',
@@ -509,7 +577,8 @@ def generate(repo):
             for n in inline_helpers(fn.body, ot, skip=('transform_psf',)):
                 if isinstance(n, ast.Assign) and ast.unparse(n.targets[0]) == '(cy, cx)':
                     gen = n.value.generators[0]
-                    assert ast.unparse(gen.iter) == 'data.shape'
+                    if ast.unparse(gen.iter) not in ('data.shape', 'dat.shape') or gen.ifs:
+                        raise Untranslatable(f'reference index taken from {ast.unparse(gen.iter)}')
                     outs.append(Tr({gen.target.id: 's'}).expr(n.value.elt))
         if len(outs) != 3 or len(set(outs)) != 1:
             raise Untranslatable(f'reference index differs between mtf/ptf/otf: {outs}')
@@ -574,6 +643,13 @@ def generate(repo):
                 'width_x is None and width_y is not None': '(!hasx && hasy)', 'width_y is not None and width_x is None': '(!hasx && hasy)'}
 
         def val(stmts):
+            # early returns: `if c: return a` followed by the rest = `if c: return a else: <rest>`
+            if len(stmts) > 1 and isinstance(stmts[0], ast.If) and not stmts[0].orelse and len(stmts[0].body) == 1 \
+                    and isinstance(stmts[0].body[0], ast.Return):
+                c = COND.get(ast.unparse(stmts[0].test))
+                if c is None:
+                    raise Untranslatable(f'slit_ft condition {ast.unparse(stmts[0].test)}')
+                return f'(if {c} then {val(stmts[0].body)} else {val(stmts[1:])})'
             if len(stmts) != 1:
                 raise Untranslatable('slit_ft branch with more than one statement')
             st = stmts[0]
@@ -659,6 +735,37 @@ def generate(repo):
                 f'  let extinction := {ext}\n  let nu := {nu}\n  if {cond} then {val} else nu')
     g.item('diffraction_limited_mtf', 'prysm/otf.py:diffraction_limited_mtf', lambda: get_def(ot, 'diffraction_limited_mtf'), difflim,
            f'def difflimNu {KHO} (abs : K → K) (f wavelength fno : K) : K := {M}.difflimNu abs f wavelength fno')
+
+    # ------------------------------------------------------------------ atmospheric helpers (otf.py)
+    class _PowToCall(ast.NodeTransformer):
+        """`a ** e` with a non-integer-literal exponent -> `rpow(a, e)` (the real power is a parameter of the model)"""
+        def visit_BinOp(self, node):
+            self.generic_visit(node)
+            if isinstance(node.op, ast.Pow) and not (isinstance(node.right, ast.Constant) and isinstance(node.right.value, int)):
+                return ast.Call(func=ast.Name(id='rpow', ctx=ast.Load()), args=[node.left, node.right], keywords=[])
+            return node
+
+    def _atm(pyname, lname, params, extra=''):
+        def build():
+            fn = get_def(ot, pyname)
+            body = [ast.fix_missing_locations(_PowToCall().visit(ast.parse(ast.unparse(s_)).body[0])) for s_ in fn.body
+                    if not (isinstance(s_, ast.Expr) and isinstance(s_.value, ast.Constant))]
+            env = {p_: q_ for p_, q_ in params}
+            env['np.pi'] = 'pi'
+            tr = Tr(env, mode='num', funcs={'np.exp': 'exp', 'rpow': 'rpow'})
+            return f'def {lname} {KH} {extra}({" ".join(q_ for _, q_ in params)} : K) : K :=\n  ' + body_to_lean(body, tr)
+        return build
+    LE = [('nu', 'nu'), ('Cn', 'Cn'), ('z', 'z'), ('f', 'f'), ('lambdabar', 'lambdabar'), ('h_z_by_r', 'h')]
+    g.item('longexposure_otf', 'prysm/otf.py:longexposure_otf', lambda: get_def(ot, 'longexposure_otf'),
+           _atm('longexposure_otf', 'longExposureOtf', LE, '(exp : K → K) (rpow : K → K → K) (pi : K) '),
+           f'def longExposureOtf {KH} (exp : K → K) (rpow : K → K → K) (pi : K) (nu Cn z f lambdabar h : K) : K := '
+           f'{M}.longExposureOtf exp rpow pi nu Cn z f lambdabar h')
+    g.item('komogorov', 'prysm/otf.py:komogorov', lambda: get_def(ot, 'komogorov'),
+           _atm('komogorov', 'komogorov', [('r', 'r'), ('r0', 'r0')], '(rpow : K → K → K) '),
+           f'def komogorov {KH} (rpow : K → K → K) (r r0 : K) : K := {M}.komogorov rpow r r0')
+    g.item('estimate_Cn', 'prysm/otf.py:estimate_Cn', lambda: get_def(ot, 'estimate_Cn'),
+           _atm('estimate_Cn', 'estimateCn', [('P', 'P'), ('T', 'T'), ('Ct', 'Ct')]),
+           f'def estimateCn {KH} (P T Ct : K) : K := {M}.estimateCn P T Ct')
 
     return g.finish()
 
